@@ -239,6 +239,10 @@ def h_group(E, shape, pvar, prop):
     if shim():
         from models import stubs
         stubs.OPTIONS['single_exact'] = False
+    # a leading 'g' asks for the index labels the MSA cropping leaves behind when it drops an earlier row
+    # (labels 0, 2, 3, ...: label != position)
+    gapped = shape.startswith('g')
+    shape = shape.lstrip('g')
     N = len(shape)
     hs = [E.real('h%d' % i) for i in range(N)]
     ds = [E.real('dt%d' % i) for i in range(N)]
@@ -253,7 +257,8 @@ def h_group(E, shape, pvar, prop):
     names = ['a'] * N
     if prms['EXCLUDE_FOR_BASE_HEIGHT_CALC']:
         names = [NAMES[E.choose(2, 'ceilo%d' % i)] for i in range(N)]
-    data = frame({'ceilo': names, 'dt': ds, 'height': hs, 'type': [1] * N, 'slice_id': sid})
+    data = frame({'ceilo': names, 'dt': ds, 'height': hs, 'type': [1] * N, 'slice_id': sid},
+                 index=([0] + list(range(2, N + 1))) if gapped else None)
     ch = new_chunk(data, prms)
     stage = 'metarize(slices)'
     try:
@@ -341,6 +346,8 @@ def h_layer(E, order, extra_group, lbv, prop):
     from ampycloud import layer as layer_mod
     from models import stubs
     stubs.OPTIONS['gmm'] = gmm_stub
+    gapped = order.endswith('-gap')      # index labels as left behind by the MSA cropping (label != position)
+    order = order.replace('-gap', '')
     n = len(FILL_H)
     hs = list(FILL_H)
     ds = [-15.0 * (n - 1 - i) for i in range(n)]
@@ -364,7 +371,8 @@ def h_layer(E, order, extra_group, lbv, prop):
         ds.append(-7.0)
         gid.append(g2)
     N = len(hs)
-    data = frame({'ceilo': ['a'] * N, 'dt': ds, 'height': hs, 'type': [1] * N, 'slice_id': list(gid), 'group_id': list(gid)})
+    data = frame({'ceilo': ['a'] * N, 'dt': ds, 'height': hs, 'type': [1] * N, 'slice_id': list(gid), 'group_id': list(gid)},
+                 index=([0] + list(range(2, N + 1))) if gapped else None)
     ch = new_chunk(data, prms)
     ch._slices = 'computed'
     stage = 'metarize(groups)'
